@@ -74,8 +74,9 @@ CLAIMED['C05'] = dict(category='proof',
         'np.floor as integer atoms with their defining inequalities): boundaries are merged to a strictly increasing grid '
         'sequence ending at the core length; one iteration of the while loop of _setup_zpts (cut mechanically from the '
         'source) from ANY grid state below L makes strict progress of at least one grid unit, never skips a boundary, never '
-        'passes L, returns a step <= the required step; the required step is <= every stability limit, honours a smaller '
-        'user request and ignores a larger one, and is >= one grid unit or the construction stops with an error.',
+        'passes L, returns a step <= the required step; the required step is exactly: a request <= the smallest limit (floored '
+        'to the micrometre) is honoured, a larger one ignored, no request gives min(limit, 1 cm); it is >= one grid unit or the '
+        'construction stops with an error; boundaries are collected from every assembly\'s power mesh.',
    note=_ASSUME + 'Real-arithmetic model of rounding (ties unspecified). Boundary counts 2-3 quick / up to 5 thorough (the '
         'loop body only tests each boundary independently). Termination and exact-on-boundaries are the induction over '
         'iterations of the proved step facts (variant: grid points in (z, L]).',
@@ -86,7 +87,9 @@ CLAIMED['C17'] = dict(category='proof',
         'value the real reader functions (convert_assn_deltaT_to_outletT, convert_units -> convert_temperature / '
         'convert_length / convert_mass_flow_rate) are proved to apply the converter exactly once to every length, '
         'temperature, temperature-difference and flow-rate leaf of every section and to leave every other leaf unchanged, '
-        'without raising, for every unit combination (quick: 9 combinations covering every unit; thorough: all 90).',
+        'without raising, for every unit combination (quick: 9 combinations covering every unit; thorough: all 90); the same on the '
+        'Assignment section as the real parser builds it from multi-position lines; defaults the reader fills in (dump interval) '
+        'are the same in every unit system and no dimensional key has a dimensional default in input_template.txt.',
    note=_ASSUME + 'The dimension table (which key is a length / temperature / flow) is ours, written from the property '
         'statement and input_template.txt. Output-side conversions are not decided.',
    technique='contract-based deductive verification (proxy execution of the real reader functions on a symbolic input tree, exact normaliser)')
@@ -94,7 +97,8 @@ CLAIMED['C19'] = dict(category='proof',
    text='For the real hotspot.calculate_temps with symbolic rises, subfactors (1 + non-negative excess), sigma levels and '
         'inlet temperature: unit subfactors give exactly the nominal cumulative temperatures; with factors >= 1 the result '
         'is >= nominal, non-decreasing in the output sigma, its statistical increment times the input sigma is independent '
-        'of the input sigma, and each location adds at least its own rise (square-root monotonicity certificate). '
+        'of the input sigma, each location adds at least its own rise (square-root monotonicity certificate), and the sequence '
+        'is cumulative in the strict sense: column j equals the result of the calculation that stops at location j. '
         '_get_peak_dt is proved to return the telescoping differences of the stored peak-pin profile above the inlet, '
         '_split_clad_subfactors to duplicate the clad column and shift the later ones; analyze keeps every row with its assembly id; '
         'the profile the rises are read from is the row of the peak pin at the peak height (contract on '
@@ -154,7 +158,9 @@ CLAIMED['C13'] = dict(category='proof',
         'as uninterpreted positive functions of temperature each of the three iteration loops is cut from the source and '
         'ONE arbitrary iteration proved to re-establish the conduction relation with k averaged over the two iterates '
         '(clad, gap with radiation term, each fuel shell), and the iteration limit raises an error. The coolant temperature '
-        'handed to each pin is an exact affine combination of its adjacent subchannels with non-negative weights summing to 1.',
+        'handed to each pin is the average of ALL its adjacent subchannels weighted by the share of its circumference facing '
+        'each; the stages of calculate_temperatures are chained on the right temperatures (clad from the coolant, gap from the '
+        'clad inner wall, fuel from the fuel surface).',
    note=_ASSUME + 'log/sqrt handled by monotonicity certificates; the exit-state argument (iterates within atol) is the '
         'stated loop contract. Ring counts 2,3 (4 thorough) for the coolant weights.',
    technique='contract-based deductive verification (proxy execution, loops cut from the real source, exact normaliser, monotone-function certificates)')
